@@ -20,7 +20,27 @@ def isRegCell (cells : Array Cell) (a : Nat) : Bool :=
   | some (.register _ _) | some (.registerRoot _) => true
   | _ => false
 
-/-- the states of the interface: `WFq`, room to grow, typed register chain, saved registers of frames exist -/
+def isFrameCell (cells : Array Cell) (a : Nat) : Bool :=
+  match cells[a]? with
+  | some (.frame _ _) | some (.frameIndex _) | some (.frameRegister _) | some .frameRoot => true
+  | _ => false
+
+/-- a cell of the frame chain -/
+def frameKind : Cell → Bool
+  | .frame _ _ | .frameIndex _ | .frameRegister _ | .frameRoot => true
+  | _ => false
+
+/-- the frame chain is typed: the head and every `previous` link is a frame cell, every saved register head is a
+register cell -/
+structure FrameTyped (s : Store) : Prop where
+  head : ∀ a, s.currentFrame = some a → isFrameCell s.cells a = true
+  prev : ∀ (i p : Nat), ((∃ r, s.cells[i]? = some (Cell.frame p r)) ∨ s.cells[i]? = some (Cell.frameIndex p)) →
+    isFrameCell s.cells p = true
+  reg : ∀ (i r : Nat), ((∃ p, s.cells[i]? = some (Cell.frame p r)) ∨ s.cells[i]? = some (Cell.frameRegister r)) →
+    isRegCell s.cells r = true
+
+/-- the states of the interface: `WFq`, room to grow, typed register chain, saved registers of frames exist, typed
+frame chain -/
 structure BInv (st : BState) : Prop where
   wfq : WFq st.store
   fits : Fits st.store
@@ -28,12 +48,16 @@ structure BInv (st : BState) : Prop where
   regPrev : ∀ (i p v : Nat), st.store.cells[i]? = some (Cell.register p v) → isRegCell st.store.cells p = true
   frameSaved : ∀ (i p r : Nat), (st.store.cells[i]? = some (Cell.frame p r) ∨
     st.store.cells[i]? = some (Cell.frameRegister r)) → r < st.store.cells.size
+  ftyped : FrameTyped st.store
 
 theorem binv_init : BInv BState.init := by
-  refine ⟨WFq_fresh, by decide, ?_, ?_, ?_⟩
+  refine ⟨WFq_fresh, by decide, ?_, ?_, ?_, ⟨?_, ?_, ?_⟩⟩
   · intro a h; cases h
   · intro i p v h; simp [BState.init, Store.fresh] at h
   · intro i p r h; simp [BState.init, Store.fresh] at h
+  · intro a h; cases h
+  · intro i p h; simp [BState.init, Store.fresh] at h
+  · intro i r h; simp [BState.init, Store.fresh] at h
 
 theorem isRegCell_sub {cells cells' : Array Cell} (h : Sub cells cells') {a : Nat} (ha : isRegCell cells a = true) :
     isRegCell cells' a = true := by
@@ -41,6 +65,46 @@ theorem isRegCell_sub {cells cells' : Array Cell} (h : Sub cells cells') {a : Na
   cases hc : cells[a]? with
   | none => simp [hc] at ha
   | some c => rw [h a c hc]; rw [hc] at ha; exact ha
+
+theorem isFrameCell_sub {cells cells' : Array Cell} (h : Sub cells cells') {a : Nat} (ha : isFrameCell cells a = true) :
+    isFrameCell cells' a = true := by
+  unfold isFrameCell at ha ⊢
+  cases hc : cells[a]? with
+  | none => simp [hc] at ha
+  | some c => rw [h a c hc]; rw [hc] at ha; exact ha
+
+/-- one more cell that is not a frame cell, same frame head -/
+theorem FrameTyped.push {s s' : Store} {c : Cell} (ht : FrameTyped s) (hcells : s'.cells = s.cells.push c)
+    (hfr : s'.currentFrame = s.currentFrame) (hc : frameKind c = false) : FrameTyped s' := by
+  have hsub : Sub s.cells s'.cells := by rw [hcells]; simpa using sub_append s.cells #[c]
+  have hnew : ∀ (i : Nat) (x : Cell), s'.cells[i]? = some x → s.cells[i]? = some x ∨ x = c := by
+    intro i x hx
+    rcases Nat.lt_or_ge i s.cells.size with h | h
+    · exact Or.inl (by rw [← hsub.get h]; exact hx)
+    · right
+      have hi : i < s'.cells.size := cell_lt hx
+      have : i = s.cells.size := by rw [hcells] at hi; simp at hi; omega
+      subst this
+      rw [hcells] at hx
+      simpa using hx.symm
+  refine ⟨?_, ?_, ?_⟩
+  · intro a ha; rw [hfr] at ha; exact isFrameCell_sub hsub (ht.head a ha)
+  · intro i p h
+    rcases h with ⟨r, h⟩ | h
+    · rcases hnew i _ h with h' | h'
+      · exact isFrameCell_sub hsub (ht.prev i p (Or.inl ⟨r, h'⟩))
+      · rw [← h'] at hc; cases hc
+    · rcases hnew i _ h with h' | h'
+      · exact isFrameCell_sub hsub (ht.prev i p (Or.inr h'))
+      · rw [← h'] at hc; cases hc
+  · intro i r h
+    rcases h with ⟨p, h⟩ | h
+    · rcases hnew i _ h with h' | h'
+      · exact isRegCell_sub hsub (ht.reg i r (Or.inl ⟨p, h'⟩))
+      · rw [← h'] at hc; cases hc
+    · rcases hnew i _ h with h' | h'
+      · exact isRegCell_sub hsub (ht.reg i r (Or.inr h'))
+      · rw [← h'] at hc; cases hc
 
 /-- contract of an adder on the Basic store: as `Adds`, and the invariant is kept -/
 def AddsB (nc : NumCode F) (m : RM BState Nat) (st : BState) (v : Val F) : Prop :=
@@ -104,7 +168,8 @@ theorem push_value_cell (nc : NumCode F) {st : BState} (hinv : BInv st) {c : Cel
       subst this
       rw [hcells] at hx
       simpa using hx.symm
-  refine ⟨s', hp, hcells, ⟨hw, hfit, ?_, ?_, ?_⟩, eff_sub nc hinv hsub hf⟩
+  refine ⟨s', hp, hcells, ⟨hw, hfit, ?_, ?_, ?_,
+    hinv.ftyped.push hcells hf.2.2.2.2.2 (by cases c <;> simp [cellTy] at hty <;> rfl)⟩, eff_sub nc hinv hsub hf⟩
   · intro a ha
     rw [hf.2.2.2.2.1] at ha
     exact isRegCell_sub hsub (hinv.regHead a ha)
